@@ -252,6 +252,7 @@ func genHook(pkg string, all []pkgVar) ([]byte, []pkgVar) {
 	}
 	sort.Slice(vars, func(i, j int) bool { return vars[i].Name < vars[j].Name })
 	var body, light bytes.Buffer
+	needClear := false
 	for i := range vars {
 		v := &vars[i]
 		before := body.Len()
@@ -260,6 +261,12 @@ func genHook(pkg string, all []pkgVar) ([]byte, []pkgVar) {
 			v.Class = "immutable-after-init"
 		case v.Type == "sync.Mutex" || v.Type == "sync.RWMutex" || v.Type == "sync.Once" || v.Type == "sync.WaitGroup":
 			v.Class = "sync-primitive"
+		case v.Name == "sds" && strings.HasPrefix(v.Init, "new") && strings.HasSuffix(v.Init, "()"):
+			// the 512 KB descriptor map is emptied in place: allocating a fresh one per execution made
+			// the collector and the scavenger the dominant cost of every check
+			v.Class = "reset-in-place"
+			fmt.Fprintf(&body, "\tif %s == nil {\n\t\t%s = %s\n\t} else {\n\t\tverifClear(%s)\n\t}\n", v.Name, v.Name, v.Init, v.Name)
+			needClear = true
 		case v.Init != "":
 			v.Class = "reset"
 			fmt.Fprintf(&body, "\t%s = %s\n", v.Name, v.Init)
@@ -301,6 +308,9 @@ func genHook(pkg string, all []pkgVar) ([]byte, []pkgVar) {
 	b.WriteString("}\n\n// VerifResetLight is VerifReset without re-creating the descriptor map (descriptors of\n// types used so far stay registered): for executions that only use never-seen-before types.\nfunc VerifResetLight() {\n")
 	b.Write(light.Bytes())
 	b.WriteString("}\n")
+	if needClear {
+		b.WriteString("\n// verifClear overwrites *p with the zero value of its type.\nfunc verifClear[T any](p *T) {\n\tvar z T\n\t*p = z\n}\n")
+	}
 	out, err := format.Source(b.Bytes())
 	if err != nil {
 		fail("generated hook does not parse: " + err.Error() + "\n" + b.String())
